@@ -187,6 +187,13 @@ fn check(prop: &str, tier: Tier) -> i32 {
         coverage["transitions"] = json!(transitions);
         coverage["traces_validated_against_impl"] = json!(traces);
     }
+    // which source tree this run was built from (a dirty tree means a mutant / seeded change was applied)
+    let git = |args: &[&str]| -> String {
+        std::process::Command::new("git").arg("-C").arg(util::repo_root()).args(args).output()
+            .map(|o| String::from_utf8_lossy(&o.stdout).trim().to_string()).unwrap_or_default()
+    };
+    coverage["subject"] = json!({"path": util::repo_root(), "head": git(&["rev-parse", "HEAD"]),
+        "dirty_files": git(&["status", "--porcelain", "--untracked-files=no"]).lines().map(|l| l.trim().to_string()).collect::<Vec<_>>()});
     let evidence = json!({
         "property_id": prop,
         "tier": tier.as_str(),
@@ -197,12 +204,20 @@ fn check(prop: &str, tier: Tier) -> i32 {
         "wall_s": t0.elapsed().as_secs_f64(),
         "violations": report.unknown_total,
     });
-    let ev_dir = root.join("evidence");
+    // runs against a deliberately broken tree (mutants/, seeded/) write their evidence elsewhere
+    let ev_dir = root.join(std::env::var("VERIF_EVIDENCE_DIR").unwrap_or_else(|_| "evidence".into()));
     let _ = std::fs::create_dir_all(&ev_dir);
     let ev_path = ev_dir.join(format!("{prop}.json"));
     if let Err(e) = std::fs::write(&ev_path, serde_json::to_string_pretty(&evidence).unwrap()) {
         eprintln!("MACHINERY-ERROR: cannot write evidence: {e}");
         return 2;
+    }
+    // the deepest run of each property is kept next to the latest one (quick runs overwrite
+    // evidence/<id>.json, never evidence/thorough/<id>.json)
+    if tier == Tier::Thorough {
+        let tdir = ev_dir.join("thorough");
+        let _ = std::fs::create_dir_all(&tdir);
+        let _ = std::fs::write(tdir.join(format!("{prop}.json")), serde_json::to_string_pretty(&evidence).unwrap());
     }
     println!(
         "{prop} {}: {} cases over {} space(s) in {:.1}s, nontrivial {}, known-finding hits {}, violations {}{}",
